@@ -373,6 +373,54 @@ def run(ctx):
             res.add(Finding('C07', 'C07.f', 'R-WHOCALLS', m.file, m.qualname, n.lineno, norm(n)[:100],
                             '%s in %s removes stored recordings: a recording that was saved can later fail to be fetched (NoSuchRecording) although '
                             'the cassette was not closed' % (what, m.qualname)))
+    # ---------------- C07.g a save that returns has stored: the public wrapper reaches the cassette's own store routine on every returning path
+    from . import common as _cm7
+    cg7 = res.clause('C07.g', 'R-MUSTPASS', 'save_recording reaches the store routine of the cassette on every returning path', floor=1)
+    base = repo.cls('TapeCassette')
+    for c_ in [base] + repo.subclasses('TapeCassette'):
+        w = c_.methods.get('save_recording')
+        if w is None:
+            continue
+        hook = lambda x: isinstance(x, ast.Call) and ((self_attr(x.func) == '_save_recording') or
+                                                      (isinstance(x.func, ast.Attribute) and x.func.attr == 'save_recording' and not self_attr(x.func)))
+        okw, where = _cm7.every_return_passes(w.node, hook)
+        cg7.instance('%s.save_recording: every returning path stores' % c_.name, w.qualname, okw)
+        cg7.evaluations += 1
+        if not okw:
+            res.add(Finding('C07', 'C07.g', 'R-MUSTPASS', w.file, w.qualname, getattr(where, 'lineno', w.node.lineno),
+                            norm(where)[:80] if not isinstance(where, ast.FunctionDef) else 'end of save_recording',
+                            '%s.save_recording can return without having stored the recording (the store routine is not reached on that path): the '
+                            'caller is told the save succeeded, a later fetch raises NoSuchRecording or returns an older version' % c_.name))
+    # ---------------- C07.h presence of a key is decided by membership, never by the stored value (a stored None / 0 / '' / [] is a value)
+    from .. import paths as _p7
+    ch7 = res.clause('C07.h', 'R-DECISION', 'readers decide "no such key" by membership, not by the value found', floor=2)
+    for c_ in [repo.cls('Recording')] + repo.subclasses('Recording'):
+        for nm in ('get_data', 'get_data_direct'):
+            g_ = c_.methods.get(nm)
+            if g_ is None or all(isinstance(x, (ast.Raise, ast.Expr, ast.Pass)) for x in g_.node.body):
+                continue
+            kp = [q for q in g_.params if q != 'self'][:1]
+            try:
+                tbl = _p7.return_paths(g_.node)
+            except _p7.Unsupported:
+                continue
+            by_value = None
+            for pth in tbl:
+                for cnd, pol in pth.conds:
+                    reads_value = any((isinstance(x, ast.Call) and isinstance(x.func, ast.Attribute) and x.func.attr in ('get', 'pop', 'get_data', 'get_data_direct') and
+                                       any(isinstance(a, ast.Name) and a.id in kp for a in x.args)) or
+                                      (isinstance(x, ast.Subscript) and isinstance(x.slice, ast.Name) and x.slice.id in kp) for x in ast.walk(cnd))
+                    membership = isinstance(cnd, ast.Compare) and all(isinstance(o, (ast.In, ast.NotIn)) for o in cnd.ops)
+                    if reads_value and not membership and (pth.raises or any(p2.raises for p2 in tbl)):
+                        by_value = by_value or (cnd, pth)
+            ch7.instance('%s.%s: missing-key decision (%d paths)' % (c_.name, nm, len(tbl)), g_.qualname, by_value is None)
+            ch7.evaluations += len(tbl)
+            if by_value is not None:
+                cnd, pth = by_value
+                res.add(Finding('C07', 'C07.h', 'R-DECISION', g_.file, g_.qualname, getattr(cnd, 'lineno', g_.node.lineno), norm(cnd)[:100],
+                                '%s.%s decides whether the key exists by looking at the value found (`%s`): a stored None (or other falsy value) is '
+                                'reported as a missing key although get_all_keys lists it - the recording does not read back as it was stored' % (
+                                    c_.name, nm, norm(cnd)[:80])))
     return res
 
 
